@@ -92,3 +92,39 @@ reg(
     "abstract interpretation over a units-of-measure lattice (second base unit), plus output-dimension oracle",
     "DESIGN.md §2 C07",
 )
+
+reg(
+    "C08",
+    "Decides the information-flow clause: in every function reachable from the dating API (output assembly excluded) the input tree sequence is read only through accessors classified structural; none classified irrelevant data (metadata, schemas, allele states, populations, provenance, migrations, mutation times/parents, table collections), none that enumerate monomorphic sites; site positions only at mutations; individual linkage only behind the unphased mask, which is the negated singletons_phased flag. That tskit's structural accessors themselves ignore metadata is assumed.",
+    "Trusted: the accessor classification table (sa/e4.py, design appendix A1) and the E4 typing of tskit values; an accessor missing from the table fails closed (exit 2).",
+    "tskit-value typing + accessor classification over the call graph (who-may-read), control-dependence on the unphased mask",
+    "DESIGN.md §2 C08, §1 E4",
+)
+reg(
+    "C02",
+    "Decides who-may-write: every store or mutator call on the output TableCollection/tables anywhere on the dating call graph is in an allow-list (time_units, nodes.time, mutations.node/time/parent, sort/build_index/compute_mutation_parents/compute_mutation_times in get_modified_ts, time-metadata writers on the node and mutation tables only in set_time_metadata, one provenance row); and the stored mutation nodes are the input's column for the discrete methods, and for variational_gamma a copy rewritten only under the unphased-singleton mask. That TableCollection.sort preserves the set of rows is tskit's.",
+    "Trusted: E4 typing and mutator table; call graph over-approximation.",
+    "who-may-write over tskit-typed receivers + def-use origin rules through the Results record",
+    "DESIGN.md §2 C02",
+)
+reg(
+    "C29",
+    "Decides copy-completeness and ownership: the node table is rebuilt with every node column permuted by the same order index; the split flag is OR-ed exactly at the split nodes; metadata key encoded through the table's schema with failure downgraded to a warning; only edges.parent/child, mutations.node and node columns are written; kernel call sites type-conform. That local trees and genotypes are preserved and the operation is idempotent is algorithmic and not decided.",
+    "Trusted: list of tskit node-table columns; E2/E4 tables.",
+    "column-completeness rule on set_columns, who-may-write, def-use, E2 signature conformance",
+    "DESIGN.md §2 C29",
+)
+reg(
+    "C22",
+    "Decides structural clauses: mutation nodes/edges are rewritten only under the mutation_blocks != NULL mask, to the child of one of the two edges of the mutation's own block; _block_singletons touches per-individual state only for unphased individuals of the edge's/mutation's own node; singletons_phased reaches the mask unchanged (negated); diploid/contemporary checks only under the mask. Invariance of the result to the input split is numerical and not decided.",
+    "Trusted: recognised np.where placement shape; guard text `i != tskit.NULL and individuals_unphased[i]`.",
+    "masked-store and guard rules, def-use wiring of the flag",
+    "DESIGN.md §2 C22",
+)
+reg(
+    "C09",
+    "Decides structural clauses of determinism: no nondeterminism source on the dating path and wall-clock values reach only logging/provenance; no numba parallel/fastmath/nogil/prange (positive fixture flagged on every run); the imap_unordered gather stores results under the worker-returned key; iterated python sets hold integers (hash-seed independent) or are inside numba code; np.empty arrays are fully written (all struct fields / mask and complement); the caller's prior object is mutated only by the invertible space conversion and rows are copied. Bit-exactness of BLAS/numba/scipy across processes and the exp(log(x)) round trip are not decided.",
+    "Trusted: list of nondeterminism sources; integer-element inference for sets (unknown is counted, not reported).",
+    "call-graph scoped source scan, def-use of time values, decorator option scan with positive fixture, gather-shape rule, set element typing",
+    "DESIGN.md §2 C09",
+)
